@@ -75,3 +75,25 @@ impl<T: Actor> ActorRef<T> {
             same_ambient(*old(w), *final(w)),
     { unimplemented!() }
 }
+
+// ---------------------------------------------------------------- R10 dispatchers: clone_boxed on trait objects
+// (dynamic dispatch reaches the blanket impl for ActorRef<T> / ActorWeak<T>, whose lifted body is verified against the
+// same clause: r.target() == this.target())
+#[verifier::external_body]
+pub fn vx_dyn__clone_boxed__TellHandler<M: Send + 'static>(this: &Box<dyn TellHandler<M>>) -> (r: Box<dyn TellHandler<M>>)
+    ensures r.target() == this.target() { unimplemented!() }
+#[verifier::external_body]
+pub fn vx_dyn__clone_boxed__AskHandler<M: Send + 'static, R: Send + 'static>(this: &Box<dyn AskHandler<M, R>>) -> (r: Box<dyn AskHandler<M, R>>)
+    ensures r.target() == this.target() { unimplemented!() }
+#[verifier::external_body]
+pub fn vx_dyn__clone_boxed__WeakTellHandler<M: Send + 'static>(this: &Box<dyn WeakTellHandler<M>>) -> (r: Box<dyn WeakTellHandler<M>>)
+    ensures r.target() == this.target() { unimplemented!() }
+#[verifier::external_body]
+pub fn vx_dyn__clone_boxed__WeakAskHandler<M: Send + 'static, R: Send + 'static>(this: &Box<dyn WeakAskHandler<M, R>>) -> (r: Box<dyn WeakAskHandler<M, R>>)
+    ensures r.target() == this.target() { unimplemented!() }
+#[verifier::external_body]
+pub fn vx_dyn__clone_boxed__ActorControl(this: &Box<dyn ActorControl>) -> (r: Box<dyn ActorControl>)
+    ensures r.target() == this.target() { unimplemented!() }
+#[verifier::external_body]
+pub fn vx_dyn__clone_boxed__WeakActorControl(this: &Box<dyn WeakActorControl>) -> (r: Box<dyn WeakActorControl>)
+    ensures r.target() == this.target() { unimplemented!() }
